@@ -153,6 +153,9 @@ def build(case):
                 nm = "fun_%d" % f
                 B.sym[nm] = add_symbol(m, nm, B.blocks[ents[0]["_idx"]])
             fn[u] = B.sym[nm]
+        # blocks that belong to a second function as well (a shared tail)
+        for bidx, f in case.get("shared", []):
+            fb[B.func_uuid[f]].add(B.blocks[bidx])
     # control flow
     build_cfg(B, flat)
     # other aux data
